@@ -529,7 +529,8 @@ for _p in ("C05", "C04", "C08"):
         "callers are busy (C08) / EOF / reset / unparsable bytes / every "
         "write fails / server Connection.Close(320) (the broker sends nothing after it) / silence with h = 1 s / a "
         "frame that forces a client exception; then the threads are joined under a deadline, the consumer's "
-        "receiver is read to its end, close() is called and the transport must be dropped.")
+        "receiver is read to its end, close() is called (in a quarter of the scenarios the connection is dropped "
+        "instead) and the transport must be released when that returns.")
     PROPS[_p]["explanation"] += (" c05l2: close() must report what the Core model ends with for that failure "
         "(term_outcome / the write path / final_result / heartbeat_timers); oracle: no thread hangs, every caller "
         "gets an error within 3 s of the failure (4.5 s for silence: 2h + slack), the consumer's queue is "
